@@ -1,4 +1,4 @@
-import CacheVerif.Proofs.ProtoLin
+import CacheVerif.Proofs.ProtoHW
 import CacheVerif.Proofs.SlotMapHindsight
 import CacheVerif.Props.C11
 /-!
@@ -24,9 +24,13 @@ correspondence), and every explored history of the real `Map` is judged by the L
   its re-checks, the `Clear` publish step, immediately before which it is linearized (the helping step: `Clear`
   locks no bucket); every lookup returns the abstract binding of a state visited during the call (or of the
   virtual state between a helped writer and its `Clear`).
+* **one linearization log per run** (`C03_C04_log_legal_state`, `C03_C04_writer_once`, `C03_C04_reader_point`,
+  `C03_C04_fastpath_point`): the linearization steps of all calls of a run, in the order of the run (helped writers
+  immediately before the `Clear` that helps them), form a legal history of the builtin map whose final state is the
+  map's abstract content; every completed call is at exactly one position of it, inside its own interval, with the
+  result it returned.  This is the linearization-point form of Herlihy–Wing linearizability for the whole history.
 **Partial**: M4a's chain read is one atomic step (justified by the M4b hindsight theorems above — the composition
-of the two models is argued in DESIGN.md §4.3, not mechanised); from "every call has a linearization step" to the
-Herlihy–Wing permutation definition is the standard argument.
+of the two models is argued in DESIGN.md §4.3, not mechanised).
 -/
 namespace Props.C03
 open Model.SlotMap Proofs.SlotMapHindsight
@@ -158,6 +162,80 @@ theorem specDc_is_AMap_compute [Inhabited V] (m : Spec.AMap K V) (k : K) (f : Op
     by_cases hd : (f none).2 = true <;> simp [hd, hg, Spec.AMap.get_set]
   | some old =>
     by_cases hd : (f (some old)).2 = true <;> simp [hd, Spec.AMap.get_set, Spec.AMap.get_erase]
+
+/-! ### the global linearization of a run (`Proofs/ProtoHW.lean`)
+
+`wlog ts H` is ONE sequential history per run, built from the steps of the run: a commit or lock-protected hit on the
+current table contributes the call with its result; the publish step of a `Clear` contributes the writers it helps
+(those past their re-checks on the retired table that go on to take effect on it) immediately followed by the `Clear`
+itself.  The four theorems say: the log is a legal history of the builtin map and reproduces the abstract content;
+every completed writing call is in it exactly once, at a step inside the call's interval, with the result it returns;
+every completed lookup returns the binding of its key after a prefix of the log that ends inside its interval. -/
+section hw
+open Proofs.ProtoHW
+
+/-- **the linearization log is a legal builtin-map history and yields the abstract content of the final state**
+(hence: a completed write is never lost, a deleted key never reappears, after `Clear` nothing stored before is left) -/
+theorem C03_C04_log_legal_state (hmin : 0 < p.minLen) (ts : List Model.Proto.Tid)
+    (sched : List (Model.Proto.Tid × Choice K V)) (s : Model.Proto.St K V)
+    (hr : Model.Proto.run p (Model.Proto.init p) sched = some s) (hts : ∀ x ∈ sched, x.1 ∈ ts) :
+    Legal (fun _ => none) (wlog ts (events p (Model.Proto.init p) sched)) ∧
+    ∀ k, specFold (fun _ => none) (wlog ts (events p (Model.Proto.init p) sched)) k = absGet s.g k :=
+  wlog_legal_state p hmin ts sched s hr hts
+
+/-- **every completed writing call is in the log exactly once, at a step inside its interval, with its result**
+(or it is a lock-free fast-path hit, which is a read: `C03_C04_fastpath_point`) -/
+theorem C03_C04_writer_once (hmin : 0 < p.minLen) (ts : List Model.Proto.Tid)
+    (pre mid post : List (Model.Proto.Tid × Choice K V)) (s0 s' s'' : Model.Proto.St K V)
+    (h0 : Model.Proto.run p (Model.Proto.init p) pre = some s0) (h1 : Model.Proto.run p s0 mid = some s')
+    (h2 : Model.Proto.run p s' post = some s'')
+    (hts : ∀ x ∈ pre ++ mid ++ post, x.1 ∈ ts) (t : Model.Proto.Tid)
+    (k : K) (f : Option V → V × Bool) (lie co : Bool) (a : Option V) (b : Bool)
+    (hstart : (s0.l t).pc = .dcFast ∨ (s0.l t).pc = .dcLoadTable)
+    (hn : NoRet t (events p s0 mid))
+    (hop : (s'.l t).op = some (.dc k f lie co)) (hret : (s'.l t).pc = .ret)
+    (hres : (s'.l t).result = some (.val a b)) :
+    let C := contrib ts (events p (Model.Proto.init p) (pre ++ mid ++ post))
+    let inside := ((C.drop pre.length).take mid.length).flatten
+    (∃ before after, inside = before ++ [⟨t, .dc k f lie co, .val a b⟩] ++ after ∧
+        (∀ x ∈ before ++ after, x.tid ≠ t)) ∨
+    (lie = true ∧ (∀ x ∈ inside, x.tid ≠ t) ∧ ∃ x, a = some x ∧ b = (!co)) :=
+  writer_once p hmin ts pre mid post s0 s' s'' h0 h1 h2 hts t k f lie co a b hstart hn hop hret hres
+
+/-- **every completed `Load` returns the binding of its key after a log prefix that ends inside its interval** -/
+theorem C03_C04_reader_point (hmin : 0 < p.minLen) (ts : List Model.Proto.Tid)
+    (pre mid post : List (Model.Proto.Tid × Choice K V)) (s0 s' s'' : Model.Proto.St K V)
+    (h0 : Model.Proto.run p (Model.Proto.init p) pre = some s0) (h1 : Model.Proto.run p s0 mid = some s')
+    (h2 : Model.Proto.run p s' post = some s'')
+    (hts : ∀ x ∈ pre ++ mid ++ post, x.1 ∈ ts) (t : Model.Proto.Tid) (k : K) (v : Option V) (b : Bool)
+    (hstart : (s0.l t).pc = .ldTable)
+    (hn : NoRet t (events p s0 mid))
+    (hop : (s'.l t).op = some (.load k)) (hret : (s'.l t).pc = .ret) (hres : (s'.l t).result = some (.val v b)) :
+    let C := contrib ts (events p (Model.Proto.init p) (pre ++ mid ++ post))
+    let before := (C.take pre.length).flatten
+    let inside := ((C.drop pre.length).take mid.length).flatten
+    b = v.isSome ∧ ∃ n, n ≤ inside.length ∧ specFold (fun _ => none) (before ++ inside.take n) k = v :=
+  reader_point p hmin ts pre mid post s0 s' s'' h0 h1 h2 hts t k v b hstart hn hop hret hres
+
+/-- the same for the lock-free fast-path hit of `LoadOrStore` / `LoadOrCompute` -/
+theorem C03_C04_fastpath_point (hmin : 0 < p.minLen) (ts : List Model.Proto.Tid)
+    (pre mid post : List (Model.Proto.Tid × Choice K V)) (s0 s' s'' : Model.Proto.St K V)
+    (h0 : Model.Proto.run p (Model.Proto.init p) pre = some s0) (h1 : Model.Proto.run p s0 mid = some s')
+    (h2 : Model.Proto.run p s' post = some s'')
+    (hts : ∀ x ∈ pre ++ mid ++ post, x.1 ∈ ts) (t : Model.Proto.Tid)
+    (k : K) (f : Option V → V × Bool) (co : Bool) (x : V)
+    (hstart : (s0.l t).pc = .dcFast)
+    (hn : NoRet t (events p s0 mid))
+    (hop : (s'.l t).op = some (.dc k f true co)) (hret : (s'.l t).pc = .ret)
+    (hres : (s'.l t).result = some (.val (some x) (!co))) :
+    let C := contrib ts (events p (Model.Proto.init p) (pre ++ mid ++ post))
+    let before := (C.take pre.length).flatten
+    let inside := ((C.drop pre.length).take mid.length).flatten
+    (∀ y ∈ inside, y.tid ≠ t) →
+    ∃ n, n ≤ inside.length ∧ specFold (fun _ => none) (before ++ inside.take n) k = some x :=
+  fastpath_point p hmin ts pre mid post s0 s' s'' h0 h1 h2 hts t k f co x hstart hn hop hret hres
+
+end hw
 
 /-- non-vacuity: a concrete run meets every hypothesis of `C03_C04_writer_linearizable` (a `Store(1, 5)` on the empty
 map, started at the end of `pre`, returning at the end of `mid`) -/
